@@ -27,7 +27,7 @@ class KaniResult:
         self.playback = {}
 
 
-def run(repo, harnesses, jobs=8, timeout=3000, playback=False):
+def run(repo, harnesses, jobs=8, timeout=3000, playback=False, fmt="terse", named_covers=False, some_covers=()):
     """harnesses: list of harness function names (short names)."""
     res = KaniResult()
     if not harnesses:
@@ -41,7 +41,7 @@ def run(repo, harnesses, jobs=8, timeout=3000, playback=False):
         src = os.path.join(scratch, "repo")
         subprocess.check_call(["rsync", "-a", "--exclude", "target", "--exclude", ".git", repo.rstrip("/") + "/", src + "/"])
         cmd = ["cargo", "kani", "--target-dir", os.path.join(CACHE, "kani-target"), "-Z", "function-contracts", "-Z", "stubbing",
-               "-j", str(jobs), "--output-format", "terse"]
+               "--output-format", fmt] + (["-j", str(jobs)] if fmt == "terse" else [])
         if playback:
             cmd += ["-Z", "concrete-playback", "--concrete-playback=print"]
         for h in harnesses:
@@ -55,7 +55,7 @@ def run(repo, harnesses, jobs=8, timeout=3000, playback=False):
             out = (e.stdout or b"").decode("utf8", "replace") if isinstance(e.stdout, bytes) else (e.stdout or "")
             res.tool_errors.append("cargo kani timed out after %ds" % timeout)
         res.raw = out
-        _parse(res, out, harnesses)
+        _parse(res, out, harnesses, named_covers, some_covers)
     finally:
         fcntl.flock(lock, fcntl.LOCK_UN)
         lock.close()
@@ -64,29 +64,11 @@ def run(repo, harnesses, jobs=8, timeout=3000, playback=False):
     return res
 
 
-def _parse(res, out, wanted):
+def _parse(res, out, wanted, named_covers=False, some_covers=()):
     if re.search(r"error(\[E\d+\])?: ", out) and "Checking harness" not in out:
         m = re.search(r"(error(\[E\d+\])?: [^\n]*(\n[^\n]*){0,6})", out)
         res.tool_errors.append("kani/rustc compile error: " + (m.group(1) if m else "?"))
         return
-    # split per thread
-    blocks = {}
-    cur = {}
-    order = []
-    for line in out.split("\n"):
-        m = re.match(r"(?:Thread (\d+): )?(.*)$", line)
-        tid, txt = m.group(1) or "0", m.group(2)
-        mh = re.match(r"Checking harness (\S+?)\.\.\.", txt)
-        if mh:
-            cur[tid] = mh.group(1)
-            blocks[cur[tid]] = []
-            order.append(cur[tid])
-            continue
-        if tid in cur:
-            blocks[cur[tid]].append(txt)
-        elif cur:
-            # continuation lines without thread prefix belong to the block announced last by "Thread n: " with empty text
-            blocks[order[-1]].append(txt)
     # lines after "Thread N: " (empty) carry the result of thread N without a prefix: re-associate
     blocks = _reassociate(out)
     for full, lines in blocks.items():
@@ -109,7 +91,10 @@ def _parse(res, out, wanted):
         if st == "FAILED" and not failed:
             # failure without a listed check (e.g. unwinding assertion, CBMC error)
             status = "UNKNOWN"
-        res.harness[short] = dict(full=full, status=status, failed=real_failed, ignored=[f for f in failed if IGNORED.match(f)],
+        sat = re.findall(r"- Status: SATISFIED\s*\n\s*- Description: \"([^\"]*)\"", txt)
+        if len(txt) > 20000:
+            txt = txt[-6000:]
+        res.harness[short] = dict(full=full, sat_covers=sat, status=status, failed=real_failed, ignored=[f for f in failed if IGNORED.match(f)],
                                   covers=covers, checks=(int(mn.group(2)) if mn else 0),
                                   time_s=float(mt.group(1)) if mt else 0.0, text=txt[-4000:])
     for h in wanted:
@@ -118,6 +103,9 @@ def _parse(res, out, wanted):
     for h, r in res.harness.items():
         if r["status"] == "UNKNOWN":
             res.tool_errors.append("harness %s: no verdict (%s)" % (h, r["text"][-300:].replace("\n", " | ")))
+        elif named_covers or h in some_covers:
+            if r["status"] == "SUCCESS" and r["covers"][0] < 1:
+                res.tool_errors.append("harness %s: vacuity - no cover property satisfied" % h)
         elif r["covers"][0] != r["covers"][1]:
             res.tool_errors.append("harness %s: vacuity - only %d of %d cover properties satisfied" % (h, r["covers"][0], r["covers"][1]))
 
